@@ -713,10 +713,16 @@ func (r *c34Run) liveClient(v *c34Vec, unit, limit, salt int, entry string) {
 	var peers []*c34Peer
 	var srvDone sync.WaitGroup
 	var conns []net.Conn // closed by the harness at the end: a panic inside Do leaks its connection
+	winding := false     // the scenario is over: late (background) dials, e.g. a PipelineClient reconnecting, are refused
 	dial := func(addr string) (net.Conn, error) {
 		pc := fasthttputil.NewPipeConns()
 		peer := &c34Peer{}
 		peersMu.Lock()
+		if winding {
+			peersMu.Unlock()
+			return nil, errors.New("c34: the scenario is over")
+		}
+		srvDone.Add(1) // under the lock: never concurrently with the Wait below
 		peers = append(peers, peer)
 		idx := len(peers)
 		conns = append(conns, pc.Conn1())
@@ -738,7 +744,6 @@ func (r *c34Run) liveClient(v *c34Vec, unit, limit, salt int, entry string) {
 			Logger:             c34NullLogger{},
 			MaxRequestBodySize: 64 << 20,
 		}
-		srvDone.Add(1)
 		go func() { defer srvDone.Done(); s.ServeConn(pc.Conn2()) }() //nolint:errcheck
 		return &c34FaultConn{Conn: pc.Conn1(), limit: limit}, nil
 	}
@@ -819,6 +824,7 @@ func (r *c34Run) liveClient(v *c34Vec, unit, limit, salt int, entry string) {
 	hc.CloseIdleConnections()
 	cl.CloseIdleConnections()
 	peersMu.Lock()
+	winding = true
 	for _, c := range conns {
 		c.Close()
 	}
